@@ -274,7 +274,7 @@ func checkC08(c *ev.Ctx) {
 				switch k.Op {
 				case 'W':
 					p := gen.Data(prng.New(k.Seed, 1), k.Fam, k.N)
-					n, err := w.Write(p)
+					n, err := callerWrite(w, p, k.Seed>>3+uint64(ci))
 					if closed {
 						if n != 0 || err == nil || len(sink.Buf) != before {
 							viol("after-close", fmt.Sprintf("call %d Write after Close returned (%d, %v), emitted %d bytes", ci, n, err, len(sink.Buf)-before))
